@@ -407,8 +407,8 @@ def consumers_clear(ctx, db, rid='C06.consumers-clear'):
         ctx.ob(rid, f, f['key'], bad is None, 'pop: count -= one handle iff non-empty' + ('' if not bad else ' -- ' + bad[0]), desc=(bad[0][:90] if bad else None), trace=fmt_trace(bad[1]) if bad else None)
 
 
-def growth(ctx, db):
-    rid = ctx.rule('C06.growth', 'LINEAR+GUARDED', 'suspend_point::add: every allocation is control-dependent on the count having reached the current capacity (inline_count or '
+def growth(ctx, db, rid='C06.growth'):
+    rid = ctx.rule(rid, 'LINEAR+GUARDED', 'suspend_point::add: every allocation is control-dependent on the count having reached the current capacity (inline_count or '
                    '_ext._capacity); the capacity stored afterwards is the expression that sized the allocation; the new array is installed on the same path', floor=1)
     for f, trs in traces_of(db, 'cocls::suspend_point::add', depth=0, per_instance=False):
         trs = [t for t in trs if live(t)]
